@@ -2,8 +2,7 @@
 # usage: seedcheck.sh <PROP> <variant> [tier] [check-id]  — applies the seeded patch to /repo, runs the check, reverts.
 set -u
 P=$1; V=$2; T=${3:-quick}; C=${4:-$P}
-SRC=/verif/seeded/$P$V
-[ -d "$SRC" ] || SRC=/tmp/seedout/$P/$V
+if [ -n "${SEEDROOT:-}" ]; then SRC=$SEEDROOT/$P/$V; else SRC=/verif/seeded/$P$V; [ -d "$SRC" ] || SRC=/tmp/seedout/$P/$V; fi
 cd /repo
 git diff --quiet || { echo "/repo dirty"; exit 2; }
 git apply $SRC/patch.diff || { echo "PATCH DOES NOT APPLY"; exit 3; }
